@@ -19,16 +19,149 @@ Definition ex_trio : inst :=
     [:: [:: GT 1; GT 1; GT 1]; [:: GT 1; GT 0; GT 1]; [:: GT 1; GT 1; GT 1]; [:: GT 1; GT 1; GT 2];
         [:: GT 0; GT 0; GT 0]]
     [:: 3; 1; 0; 2; 3].
+(* the same reads in distrust mode (phred triples instead of genotypes) *)
+Definition ex_trio_gl : inst :=
+  MkInst (i_reads ex_trio) 5 3 [:: (0, 1, 2)]
+    [:: [:: GL 0 3 9; GL 5 0 5; GL 2 0 7]; [:: GL 0 0 0; GL 0 4 8; GL 6 0 1]; [:: GL 3 0 3; GL 1 1 0; GL 0 2 2];
+        [:: GL 9 0 9; GL 0 0 4; GL 7 3 0]; [:: GL 0 6 6; GL 0 5 5; GL 0 1 9]]
+    [:: 3; 1; 0; 2; 3].
 
-(* Every bipartition of the reads and every transmission vector costs at least the brute-force
-   optimum: a witness whose cost equals the reported (optimal) cost is therefore an optimal one. *)
+(* --- 1. the reported cost is the PedMEC optimum ------------------------------------------------
+
+   For every well-formed instance (any number of reads, columns, individuals and trios, all weights,
+   trusted genotypes or phred triples, every recombination vector) on which the solver does not raise
+   "Mendelian conflict", the column DP with projection tables (dp_cost: the model of
+   PedigreeDPTable::compute_table/compute_column) returns the minimum, over ALL bipartitions beta of
+   the reads and ALL transmission vectors tau, of the PedMEC objective
+       cost_of beta tau = sum over columns c of
+                            [c > 0] popcount(tau_(c-1) xor tau_c) * recomb_c
+                          + min over admissible allele assignments of column c of
+                              (genotype cost + weight of the entries that disagree).
+   no_overflow is the 32-bit guard: the model computes in nat + infinity, the code in unsigned int
+   with UINT_MAX as infinity; outside the guard nothing is claimed (the guard is not used by the proof
+   about the model). *)
+Theorem C01_dp_cost_optimal : forall I : inst,
+  wf I -> no_conflict I -> no_overflow I ->
+  dp_cost I =
+  Cost (ominl [seq ominl [seq cost_of I beta tau | tau <- tuples (nT I) (i_ncols I)]
+              | beta <- bvs (nreads I)]).
+Proof. move=> I hwf hnc _; exact: (dp_cost_optimal hwf hnc). Qed.
+Print Assumptions C01_dp_cost_optimal.
+
+(* what the objective is, spelled out (all three hold by unfolding) *)
+Theorem C01_objective_unfold : forall (I : inst) (beta : seq bool) (tau : seq nat) (c : nat),
+  opt_spec I = ominl [seq ominl [seq cost_of I beta tau | tau <- tuples (nT I) (i_ncols I)]
+                     | beta <- bvs (nreads I)] /\
+  cost_of I beta tau = oaddl [seq term I beta tau c | c <- iota 0 (i_ncols I)] /\
+  term I beta tau c =
+    oadd (Some (if c is c'.+1 then hamming (2 * ntrios I) (nth 0 tau c) (nth 0 tau c') * recomb I c else 0))
+         (local_cost I c (restrict (active I c) beta) (nth 0 tau c)).
+Proof. by []. Qed.
+Print Assumptions C01_objective_unfold.
+
+(* local_cost c x t is the minimum over the allele assignments a (one allele per founder haplotype)
+   that the genotypes admit (allowed: the genotype cost g is 0 for a matching trusted genotype, the
+   sum of the phred entries in distrust mode) of g + flip cost: a lower bound of all, attained by one *)
+Theorem C01_local_cost_is_min : forall (I : inst) (c : nat) (x : seq bool) (t : nat),
+  (forall a g, (a, g) \in allowed I c t ->
+     ole (local_cost I c x t) (Some (g + flip_cost (h2p_map I t) (colents I c) x a))) /\
+  (forall v, local_cost I c x t = Some v ->
+     exists a g, (a, g) \in allowed I c t /\ v = g + flip_cost (h2p_map I t) (colents I c) x a) /\
+  (forall a g, (a, g) \in allowed I c t <->
+     a \in assignments I /\ geno_cost I (h2p_map I t) (nth [::] (i_geno I) c) a = Some g).
+Proof.
+move=> I c x t; split; first exact: local_cost_lower.
+split; [exact: local_cost_attained | exact: allowedP].
+Qed.
+Print Assumptions C01_local_cost_is_min.
+
+(* without a Mendelian conflict the optimum is finite and attained by some witness *)
+Theorem C01_opt_finite_attained : forall I : inst, no_conflict I ->
+  exists v beta tau,
+    [/\ opt_spec I = Some v, size beta = nreads I, size tau = i_ncols I,
+        all (fun t => t < nT I) tau & cost_of I beta tau = Some v].
+Proof.
+move=> I /opt_finite[v hv]; case: (opt_attained hv) => beta [tau [h1 h2 h3 h4]].
+by exists v, beta, tau; split.
+Qed.
+Print Assumptions C01_opt_finite_attained.
+
+(* --- 2. witnesses ---------------------------------------------------------------------------- *)
+
+(* Every bipartition of the reads and every transmission vector costs at least the optimum: a
+   returned witness whose cost_of equals the reported cost is therefore an optimal one. *)
 Theorem C01_witness_cost : forall (I : inst) (beta : seq bool) (tau : seq nat),
   size beta = nreads I -> size tau = i_ncols I -> all (fun t => t < nT I) tau ->
   ole (opt_spec I) (cost_of I beta tau).
 Proof. exact witness_cost. Qed.
 Print Assumptions C01_witness_cost.
 
-Example C01_ex_trio_wf : wf ex_trio && no_conflict ex_trio && no_overflow ex_trio.
+(* Stage 2, NOT proved: the back-pointer tables (index_backtrace_table, transmission_backtrace_table),
+   the Gray-code visiting order that decides ties between equally good bipartitions, and the
+   sqrt(n)-checkpointed recomputation of compute_table are not modelled. The full statement would be:
+   the partition and transmission vector reconstructed by the backtrace achieve the reported cost. It
+   is kept here over an abstract backtrace function; instead of a proof, the clause is validated per
+   input by the correspondence check (L1 `l1_witness`: cost_of at the implementation's own returned
+   partition and transmission vector equals the reported cost, evaluated in Coq). *)
+Definition C01_witness_full_statement : Prop :=
+  forall backtrace : inst -> seq bool * seq nat,      (* the model of compute_table's backtrace *)
+  forall I : inst, wf I -> no_conflict I -> no_overflow I ->
+    let: (beta, tau) := backtrace I in
+    [/\ size beta = nreads I, size tau = i_ncols I, all (fun t => t < nT I) tau
+      & Cost (cost_of I beta tau) = dp_cost I].
+
+(* --- 3. alleles of the super reads ------------------------------------------------------------ *)
+
+(* get_alleles c x t models PedigreeColumnCostComputer::get_alleles for column c, bipartition x of
+   the active reads and transmission value t (incl. the `<=`-last-wins choice, the per-haplotype
+   best-cost table, quality |best0 - best1| with (int)UINT_MAX = -1, code 3 = EQUAL_SCORES).
+   Every allele it reports for individual i / haplotype h that is not the tie code agrees with
+   EVERY cost-optimal allele assignment of that column. *)
+Theorem C01_alleles_non_tie_forced :
+  forall (I : inst) (c : nat) (x : seq bool) (t : nat) (v : seq (nat * nat * nat))
+         (i : nat) (h : bool) (a : seq bool),
+  get_alleles I c x t = Some v -> i < i_nind I ->
+  (if h then (nth (0, 0, 0) v i).1.2 else (nth (0, 0, 0) v i).1.1) != 3 ->
+  a \in optimal_assignments I c x t ->
+  (if h then (nth (0, 0, 0) v i).1.2 else (nth (0, 0, 0) v i).1.1) =
+  nat_of_bool (allele_of (h2p_map I t) a i h).
+Proof. exact alleles_non_tie_forced. Qed.
+Print Assumptions C01_alleles_non_tie_forced.
+
+(* --- 4. the evaluator used by the correspondence check ---------------------------------------- *)
+
+(* opt_fast (shares the per-column cost computers between all (beta, tau)) is what Coq evaluates on
+   the implementation's outputs for the brute-force comparison; it is the specification optimum. *)
+Theorem C01_opt_fast_is_opt_spec : forall I : inst, opt_fast I = opt_spec I.
+Proof. exact opt_fastE. Qed.
+Print Assumptions C01_opt_fast_is_opt_spec.
+
+(* --- non-vacuity ------------------------------------------------------------------------------ *)
+Example C01_ex_trio_hyps : wf ex_trio && no_conflict ex_trio && no_overflow ex_trio.
 Proof. by vm_compute. Qed.
 Example C01_ex_trio_cost : dp_cost ex_trio = Cost (Some 2) /\ opt_spec ex_trio = Some 2.
+Proof. by vm_compute. Qed.
+(* an optimal witness with a recombination event (transmission value changes 3 -> 0 at column 2,
+   where the recombination cost is 0), and a non-optimal one *)
+Example C01_ex_trio_witness :
+  cost_of ex_trio [:: true; true; false; true] [:: 3; 3; 0; 0; 0] = Some 2 /\
+  cost_of ex_trio [:: false; true; false; true] [:: 0; 0; 0; 0; 0] = Some 6.
+Proof. by vm_compute. Qed.
+Example C01_ex_trio_gl_hyps : wf ex_trio_gl && no_conflict ex_trio_gl && no_overflow ex_trio_gl.
+Proof. by vm_compute. Qed.
+Example C01_ex_trio_gl_cost : dp_cost ex_trio_gl = Cost (opt_spec ex_trio_gl) /\ opt_spec ex_trio_gl = Some 7.
+Proof. by vm_compute. Qed.
+(* alleles: column 3 of ex_trio at the optimal witness: the child is homozygous ALT (forced, quality from
+   the excluded allele), the parents' alleles are forced by the reads *)
+Example C01_ex_trio_alleles :
+  get_alleles ex_trio 3 (restrict (active ex_trio 3) [:: true; true; false; true]) 0
+  = Some [:: (0, 1, 3); (0, 1, 3); (1, 1, 3)] /\
+  optimal_assignments ex_trio 3 (restrict (active ex_trio 3) [:: true; true; false; true]) 0
+  = [:: [:: false; true; false; true]].
+Proof. by vm_compute. Qed.
+(* a Mendelian conflict is reported as such, and then no solution has finite cost *)
+Example C01_ex_conflict :
+  let I := MkInst [:: MkRead 2 0 [:: Some (true, 1); Some (false, 1)]] 2 3 [:: (0, 1, 2)]
+                  [:: [:: GT 1; GT 1; GT 1]; [:: GT 0; GT 0; GT 2]] [:: 0; 0] in
+  wf I && ~~ no_conflict I /\ dp_cost I = Conflict /\ opt_spec I = None.
 Proof. by vm_compute. Qed.
